@@ -11,6 +11,11 @@ def processLine (st : St) (no : Nat) (line : String) : St × List String :=
       let st := { st with pending := none }
       let (st, verdict) := commandObs st c
       let st := applyTick st c got
+      let st := if c.op == "merge" ∧ got.startsWith "ok" ∧ !(st.digests.contains (c.arg 0)) then
+          match kvOf got "digest" with
+          | some d => { st with digests := st.digests.insert (c.arg 0) d }
+          | none => st
+        else st
       let kind := if c.op == "q" then "q." ++ c.arg 0 else if c.op == "enc" then "enc." ++ c.arg 0 else c.op
       let st := { st with kinds := st.kinds.insert kind (st.kinds.getD kind 0 + 1) }
       match d3Relaxed st c got with
